@@ -36,3 +36,47 @@ package packets
 //@ func (*Pingreq).NewPingresp
 //@ props C01
 //@ ensures result != nil && isfresh(result)
+
+// ---------------------------------------------------------------------------
+// C06 — variable byte integer (MQTT 1.5.5), verified with bit-vector semantics.
+// vbiLen(x): number of bytes of the canonical encoding; vbiByte(x, k): its k-th byte (7 value bits, least
+// significant group first, bit 7 = "more bytes follow").
+
+//@ spec func vbiLen(x int) int = x < 128 ? 1 : (x < 16384 ? 2 : (x < 2097152 ? 3 : 4))
+//@ spec func vbiByte(x int, k int) byte = byte(((x >> (7 * k)) & 127) | ((x >> (7 * (k + 1))) != 0 ? 128 : 0))
+
+// DecodeRemainLength is the ENCODER (length -> bytes; the names in the repository are swapped).
+//@ func DecodeRemainLength mode bv
+//@ props C06
+//@ requires [C06] length >= 0
+//@ ensures [C06] length < 268435456 ==> result1 == nil && len(result0) == vbiLen(length) && (forall k int :: 0 <= k && k < len(result0) ==> result0[k] == vbiByte(length, k))
+//@ ensures [C06] length >= 268435456 ==> result1 != nil && result0 == nil
+//@ loop 1 invariant result != nil && isfresh(result) && len(result) == vbiLen(old(length)) && old(length) < 268435456
+//@ loop 1 invariant 0 <= i && i < len(result) && length == (old(length) >> (7 * i)) && (i > 0 ==> length > 0)
+//@ loop 1 invariant forall k int :: 0 <= k && k < i ==> result[k] == vbiByte(old(length), k)
+
+// EncodeRemainLength is the DECODER (bytes -> length). d(r, i): the i-th byte of the reader's stream (0 past its
+// end). A variable byte integer has at most four bytes; the value is the little-endian base-128 number of the
+// 7-bit groups; every byte but the last has the continuation bit.
+//@ spec func d(r io.ByteReader, i int) byte = (i < r.$len) ? r.$data[i] : 0
+//@ spec func grp(r io.ByteReader, p int, k int) uint32 = uint32(d(r, p + k) & 127) << (7 * uint32(k))
+//@ spec func partial(r io.ByteReader, p int, k int) uint32 = (k <= 0) ? 0 : ((k == 1) ? grp(r, p, 0) : ((k == 2) ? (grp(r, p, 0) | grp(r, p, 1)) : ((k == 3) ? (grp(r, p, 0) | grp(r, p, 1) | grp(r, p, 2)) : (grp(r, p, 0) | grp(r, p, 1) | grp(r, p, 2) | grp(r, p, 3)))))
+
+//@ func EncodeRemainLength mode bv
+//@ props C06
+//@ let p0 = r.$pos
+//@ requires [C06] r != nil && 0 <= r.$pos && r.$pos <= r.$len && r.$len < 4611686018427387904
+//@ witness b0 = d(r, r.$pos)
+//@ witness b1 = d(r, r.$pos + 1)
+//@ witness b2 = d(r, r.$pos + 2)
+//@ witness b3 = d(r, r.$pos + 3)
+//@ witness b4 = d(r, r.$pos + 4)
+//@ witness avail = r.$len - r.$pos
+//@ modifies ghost(r.$pos)
+//@ ensures [C06] result1 == nil ==> 0 <= result0 && result0 <= 268435455
+//@ ensures [C06] result1 == nil ==> r.$pos - p0 <= 4 && r.$pos >= p0
+//@ ensures [C06] result1 == nil && r.$pos - p0 >= 1 ==> uint32(result0) == partial(r, p0, r.$pos - p0) || (r.$pos == r.$len && uint32(result0) == partial(r, p0, r.$pos - p0 + 1))
+//@ ensures [C06] result1 == nil ==> (forall j int :: 0 <= j && j + 1 < r.$pos - p0 ==> (d(r, p0 + j) & 128) != 0)
+//@ loop 1 invariant p0 <= r.$pos && r.$pos - p0 <= 3 && r.$pos <= r.$len
+//@ loop 1 invariant multiplier == 7 * uint32(r.$pos - p0) && vbi == partial(r, p0, r.$pos - p0)
+//@ loop 1 invariant forall j int :: 0 <= j && j < r.$pos - p0 ==> (d(r, p0 + j) & 128) != 0
